@@ -29,7 +29,7 @@ RULE = ('Random edit histories (3-30 ops over set/get/del by name, index, negati
         'is non-trivial when at least one state-changing op was accepted; distinct = distinct '
         '(signature shape, op-kind sequence, outcome sequence).')
 RULE_ADDITIONS = (' Added by the rounds of seeded changes (DESIGN 9.7): ' +
-                  'model-mismatch:slice-insert-into-varargs | cfg[3:1]=[x] duplicates x | fix: read old values before overwriting; written values equal to signature defaults')
+                  "model-mismatch:slice-insert-into-varargs | cfg[3:1]=[x] duplicates x | fix: read old values before overwriting; written values equal to signature defaults; the sweep's set-up edits are judged; assignment by name to a positional-only parameter whose name already is a key")
 RULE = RULE + RULE_ADDITIONS
 ASSUMPTIONS = [
     'ArgModel (written from the Config docstring and the property statement) is the '
